@@ -4,6 +4,7 @@ HARNESSES = {
 }
 PROPS = {
     "C04": {
+        "deadline": {"quick": 900, "thorough": 2700},
         "runs": {
             "quick": [{"harness": "polytree", "args": ["--scope", "S1", "--nmax", 4, "--treeD", 1]},
                       {"harness": "polytree", "args": ["--scope", "S0", "--board", "twins", "--both", 1, "--k", 16, "--nmin", 4, "--nmax", 5, "--treeD", 1]},
